@@ -1,3 +1,4 @@
+import re
 """Helpers shared by the per-property rule modules."""
 from ..mir import Callee, site, span_line
 from ..slicer import Slicer, Interp, peel, show, walk, find
@@ -666,3 +667,73 @@ def _reach_assuming_flow_insensitive(an, body, assume, start=0):
             if s not in seen:
                 st.append(s)
     return seen
+
+
+# ---------------------------------------------------------------------------
+# "the last len(R) bytes of S": walking a buffer by offset instead of re-slicing a copied remainder
+
+_SUB_CALL = re.compile(r"::(saturating_sub|checked_sub|wrapping_sub)$")
+_LEN_CALL = re.compile(r"(<impl \[T\]>|Vec(<.*>)?|vec::Vec)::len$")
+
+
+def _strip_refs(e):
+    e = peel(e, widen=True)
+    while e[0] in ("ref", "deref"):
+        e = peel(e[1], widen=True)
+    return e
+
+
+def _len_of(e):
+    e = peel(e, widen=True)
+    if e[0] == "call" and e[2] is not None and _LEN_CALL.search(e[2].npath) and e[3]:
+        return _strip_refs(e[3][0])
+    return None
+
+
+def tail_by_length(an, m):
+    """Recognise `S.get(S.len() - R.len() ..)` (also `&S[..]`, with saturating / checked subtraction, through
+    Option::filter / and_then(|n| S.get(n..)) / unwrap_or_default / `phi(0, ..)` for the first iteration): the last
+    R.len() bytes of S.  When R is a copy of a tail of (a tail of) S this is byte for byte R, read from the caller's
+    buffer instead of from the copy.  -> (S, R) or None."""
+    subs = []
+    for n in find(m, lambda n: (n[0] == "call" and n[2] is not None and _SUB_CALL.search(n[2].npath) and len(n[3]) == 2)
+                  or (n[0] == "binop" and n[1].replace("WithOverflow", "") == "Sub")):
+        a, b_ = (n[3][0], n[3][1]) if n[0] == "call" else (n[2], n[3])
+        sa, sb = _len_of(a), _len_of(b_)
+        if sa is not None and sb is not None:
+            subs.append((n, sa, sb))
+    if not subs:
+        return None
+    gets = []
+    exprs = [m]
+    # closures handed to and_then / map: `|consumed| input.get(consumed..)`
+    for c in find(m, lambda n: n[0] == "closure"):
+        try:
+            exprs.append(an.simp(an.interp.apply(c, [("sym", "n")])))
+        except Exception:
+            pass
+    for ex in exprs:
+        for n in find(ex, lambda n: n[0] == "call" and n[2] is not None and len(n[3]) == 2 and
+                      (re.search(r"<impl \[T\]>::get$", n[2].npath) or re.search(r"ops::Index(<.*>)?.*::index$", n[2].npath + "|" + n[2].nsyn))):
+            rng = peel(n[3][1])
+            if rng[0] == "agg" and str(rng[1]).endswith("ops::RangeFrom") and rng[3]:
+                gets.append((_strip_refs(n[3][0]), peel(rng[3][0], widen=True)))
+    for S, start in gets:
+        for sub, sa, sb in subs:
+            if canon(sa) != canon(S):
+                continue
+            st = start
+            ms = st[1] if st[0] == "phi" else [st]
+            ok = True
+            for x in ms:
+                x = peel(x, widen=True)
+                if const_eval(x) == {0}:
+                    continue
+                if x == ("sym", "n") or canon(x) == canon(sub):
+                    continue
+                if x[0] in ("some",) and canon(peel(x[1])) == canon(sub):
+                    continue
+                ok = False
+            if ok:
+                return S, sb
+    return None
